@@ -178,4 +178,22 @@ CHECKS = {
              "outside": "more than 3 blocks / 3 responses; batch caps other than none/2; GCS decoding beyond N-prefix parsing; concurrent GetCFilter callers (single-flight mutex)"},
         ],
     },
+    "C19": {
+        "assumptions": COMMON_ASSUMPTIONS + [
+            "the blockManager is the real one (newBlockManager) on slice-model header stores; the filter store resolves its tip through the block index like the real store (C07 ties the real stores to list behaviour)",
+            "the subscription manager's side of blockNtfnChan is a collector goroutine under the engine's run-to-block scheduler; it records, per event, the store tips and the tip a backlog request would be computed up to at that moment",
+            "callers of writeCFHeadersMsg pass a stop hash at height filterTip+len(hashes) (what getUncheckpointedCFHeaders/getCheckpointedCFHeaders request and accept)",
+            "concrete clock (only feeds progress logging)",
+        ],
+        "groups": [
+            {"name": "events", "pkg": ".", "harness_dir": "root", "common": ["walletdb", "stores", "pow"],
+             "harness": "VerifH_C19_(writeCFHeaders|rollback|backlog|compose)",
+             "inits": ROOT_INITS, "anchored_files": ["blockmanager.go", "blockntfns/notification.go"],
+             "params": {"chain": 4}, "thorough": {"params": {"chain": 6}},
+             "must_reach": {"VerifH_C19_writeCFHeaders": ["write-accepted", "write-refused"],
+                            "VerifH_C19_rollback": ["filter-headers-rolled-back", "only-uncommitted-blocks-rolled-back"],
+                            "VerifH_C19_backlog": ["backlog", "height-zero", "height-above-tip"]},
+             "outside": "chains longer than 4 (6) blocks, batches > 2 hashes, more than one reorg per history; the subscription manager beyond the channel (C11)"},
+        ],
+    },
 }
